@@ -28,6 +28,7 @@ BOUNDS = {'quick': {'rank': '2..4', 'merged_block': '<= 3x3 (products of sector 
 OPTS = {'quick': {'max_paths': 3000, 'query_timeout_ms': 60000, 'case_deadline_s': 600},
         'thorough': {'max_paths': 20000, 'query_timeout_ms': 120000, 'case_deadline_s': 3000}}
 SYMS = ['dense', 'Z2', 'Z3', 'U1', 'Z2xU1', 'U1xU1', 'U1xU1xZ2']
+FLOAT_XVAL = {'quick': 1.0, 'thorough': 1.0}      # eig is checked on the float cross-run only
 
 
 def cases(tier, seed):
@@ -49,11 +50,46 @@ def cases(tier, seed):
                 c = dict(row)
                 c.update(kind=kind, tier=tier, id=f'{kind}-{rep}-{i}', seed=hash_seed(seed, kind, rep, i))
                 out.append(c)
+    for rep in range(reps):
+        for i, row in enumerate(cat.covering({'sym': SYMS, 'lazy': ['plain', 'lazy', 'consumed'], 'fused': ['none', 'hard', 'meta'], 'sU': [1, -1], 'rank': [2, 4]},
+                                             seed=seed * 103 + rep, strength=2)):
+            c = dict(row)
+            c.update(kind='eig', dtype='real', tier=tier, id=f'eig-{rep}-{i}', seed=hash_seed(seed, 'eig', rep, i))
+            out.append(c)
     return out
 
 
 def run(ctx, spec):
     return globals()['k_' + spec['kind']](ctx, spec)
+
+
+def k_eig(ctx, spec):
+    """eig is not stubbed (its post-processing divides by square roots of symbolic complex overlaps and compares with tolerances; bi-orthogonality
+    needs distinct eigenvalues): FLOAT cross-run only -- structure of the factors (legs, fusion records, new-leg position and signature),
+    reconstruction and bi-orthonormality at 1e-8 on random (non-degenerate) inputs.  Outside the solver-decided claim."""
+    import yastn
+    if ctx.mode == 'sym':
+        ctx.skip('eig: float cross-run only (outside the solver-decided claim)')
+    rng = rng_of(spec)
+    cfg = cat.make_config(spec['sym'])
+    a, axes = _input(ctx, rng, dict(spec, dtype='real'), cfg, hermitian=True)      # square, zero charge (values need not be Hermitian)
+    a._data = a._data + np.array([rng.random() for _ in range(a.size)])            # generic non-symmetric values
+    a, axes = _prep(ctx, rng, dict(spec, fused=('meta' if spec['fused'] == 'meta' else 'none')), a, axes)    # hard fusion of one side only: effective blocks are not square
+    nl = len(axes[0])
+    sU = spec['sU']
+    U, S, V = yastn.linalg.eig(a, axes=axes, sU=sU)
+    ctx.check(U.ndim == nl + 1 and V.ndim == len(axes[1]) + 1 and S.ndim == 2 and S.isdiag, 'eig: ranks of the factors', (U.ndim, S.ndim, V.ndim))
+    ctx.check(U.get_legs(-1).s == sU and S.get_signature() == (-sU, sU) and V.get_legs(0).s == -sU, 'eig: signatures of the connecting legs')
+    ctx.check(U.get_legs()[:nl] == tuple(a.get_legs(axes[0])) and V.get_legs()[1:] == tuple(a.get_legs(axes[1])), 'eig: outer legs (incl. fusion records) are those of the input')
+    rec = U @ S @ V
+    ref = a.transpose(axes[0] + axes[1])
+    ctx.check(rec.get_legs() == ref.get_legs(), 'eig: U S V has the legs of the (permuted) input')
+    ctx.check(bool((rec - ref).norm() < 1e-8 * max(1.0, ref.norm())), 'eig: U S V == a (1e-8)')
+    if V.ndim - 1 == nl:       # (with one side meta-fused the logical leg counts differ; reconstruction above already involves both factors)
+        VU = yastn.tensordot(V, U, axes=(tuple(range(1, V.ndim)), tuple(range(nl))))
+        Id = yastn.eye(config=cfg, legs=VU.get_legs(), isdiag=False)
+        ctx.check(bool((VU - Id).norm() < 1e-6 * max(1.0, Id.norm())), 'eig: V U == 1 (bi-orthonormal pairs, 1e-6)')
+    return {'a': describe(a)}
 
 
 def _input(ctx, rng, spec, cfg, hermitian=False):
@@ -260,8 +296,8 @@ def k_eigh(ctx, spec):
     rng = rng_of(spec)
     cfg = cat.make_config(spec['sym'])
     a, axes = _input(ctx, rng, spec, cfg, hermitian=True)
-    if spec.get('lazy') == 'consumed':
-        a = a.consume_transpose()
+    # lazy / consumed transposition with an ARBITRARY permutation (interleaved groups, non-involutive permutations), optional fusion of a side
+    a, axes = _prep(ctx, rng, dict(spec, fused='none'), a, axes)      # fusing ONE side only makes the two sides' legs differ: not a Hermitian input
     sU, which = spec['sU'], spec['which']
     nl = len(axes[0])
     nfork = 1
@@ -280,11 +316,12 @@ def k_eigh(ctx, spec):
     Un = U.moveaxis(up, -1)
     lk = Un.get_legs(native=True)[-1]
     ctx.check(dense.legs_equal(lk, S.get_legs(1)), 'eigh:connecting-legs-agree')
-    legs_a = list(a.get_legs(native=True))
+    ap = a.transpose(axes[0] + axes[1])           # the (suitably permuted) input
+    legs_a = list(ap.get_legs(native=True))
     Ud = reassemble(Un, legs_a[:nl] + [lk])
     Um = _mat(Ud, nl)
     Sd = reassemble(S, [lk.conj(), lk])
-    A = _mat(reassemble(a, legs_a), nl)
+    A = _mat(reassemble(ap, legs_a), nl)
     ctx.eq(Um @ Sd @ _H(Um), A, 'eigh:U S U^H == a')
     if Um.shape[1]:
         _eye_obligation(ctx, _H(Um) @ Um, 'eigh:U^H U == I')
